@@ -15,6 +15,8 @@ def run(tier):
         dl = 1500
     return vsrun.vs_check(
         PROP, tier, scs, deadline_s=dl, min_outcomes=2,
+        race_scenarios=[dict(scenario="c02b", p=2, m=2, bound=1), dict(scenario="c02l", p=2, m=2, bound=1), dict(scenario="c02b", p=3, m=1, bound=1)] if tier == "quick" else
+                      [dict(scenario="c02b", p=2, m=2, bound=2), dict(scenario="c02l", p=2, m=2, bound=2), dict(scenario="c02b", p=3, m=2, bound=1), dict(scenario="c02l", p=3, m=1, bound=1)],
         rule="every interleaving, up to the deviation bound, of P producer threads logging m messages each (scenario c02l: through qDebug() and an installed synchronous Logger; c02b: "
              "calling process() of a bare OwnThreadHandler<Pipeline> that was never moved to a thread) through [probe-in, SeqNumberAttr, DuplicateFilter, PrettyFormatter, sink A, "
              "sub-pipeline{filter even producers, sink B}, probe-out]; probes and sinks contain yield points (handlers of arbitrary duration); oracle on EVERY execution: in-flight count "
